@@ -248,6 +248,8 @@ class CallMixin:
         if c.tag == "tuple":
             return Or(*[self.isinstance_(v, x, p) for x in c.z])
         if c.tag == "clsof":  # isinstance(x, self._tree.__class__)
+            if v.tag == "ref" and v.cls in ("Node", "Tree") and c.cls in ("Node", "Tree") and v.cls != c.cls:
+                return z3.BoolVal(False)  # node classes and tree classes are unrelated (closed class table)
             if v.tag == "ref":
                 return And(v.z != L.NONE, self.subclass_of_dynamic(L.cls_of(v.z), L.cls_of(c.z)))
             return z3.BoolVal(False)
